@@ -12,6 +12,8 @@
   Devices are numbers (0 = cpu, 1 = meta in the harness); moving a non-empty value from device 1 to another
   device raises (torch: "Cannot copy out of meta tensor").
 -/
+import TdVerif.Model.C04Tree
+
 namespace TdVerif.C01
 
 abbrev Shape := List Nat
@@ -190,6 +192,13 @@ def finishResize (new bs : Shape) (dv : Option Nat) (names : Option DimNames) (g
     | none => (.node new dv none kids', .ok)
     | some ns => setNamesM (some (namesAfterResize ns new)) (.node new dv none kids')
 
+/-- `snapshot = self._nested_meta_snapshot(); try: … except Exception: self._nested_meta_restore(snapshot); raise`
+(tensordict/base.py): a call that raises leaves the batch sizes and names of the whole subtree as they were -/
+def restoreOnErr (orig : M) (r : M × Out) : M × Out :=
+  match r.2 with
+  | .err e => (orig, .err e)
+  | _ => r
+
 /-- the batch size a nested tensordict is given when its parent receives `new` -/
 def childNew (new cbs : Shape) : Shape := if cbs.length < new.length then new else new ++ cbs.drop new.length
 
@@ -217,13 +226,17 @@ def growKids (new : Shape) : Kids → Kids × Out
       let (r', o) := growKids new r
       ((k, .node cbs cdv cnames sub) :: r', o)
 
-/-- `td.batch_size = new` with `new` given as a list/tuple (the early return `new == self.batch_size` only fires
+/-- `td.batch_size = new` (after the `fix:` commits: shapes checked first, metadata restored when the rest fails) with `new` given as a list/tuple (the early return `new == self.batch_size` only fires
 for a `torch.Size`, as in the recursive calls on nested tensordicts modelled in `growKids`) -/
 def setBatchM (new : Shape) : M → M × Out
   | .leaf s d => (.leaf s d, .err .attr)
   | .node bs dv names kids =>
     if !checkNewBs new kids then (.node bs dv names kids, .err .runtime)
-    else finishResize new bs dv names (growKids new kids)
+    else
+      -- `_batch_size_setter_checked` runs inside try/except: when it raises, `_nested_meta_restore` puts the batch size and
+      -- the names of every nested tensordict back (the nested setters do the same for their own subtree; what the
+      -- outermost one restores is what counts)
+      restoreOnErr (.node bs dv names kids) (finishResize new bs dv names (growKids new kids))
 
 /-! ### validation of a written value (tensordict/base.py:_validate_value) -/
 
@@ -515,6 +528,43 @@ def updMeasureC : List (Path × PV) → Nat
   | [] => 0
   | (p, v) :: r => 1 + p.length + pvW v + updMeasureC r
 
+/-! ### update with a tensordict payload (tensordict/base.py:update, default options) -/
+
+/-- the loose batch-size test at the top of `update(tensordict)` (update_batch_size=False): RuntimeError when
+`self.batch_size[:payload.batch_dims] != payload.batch_size[:self.batch_dims]` -/
+def looseMismatch (bs vbs : Shape) : Bool := bs.take vbs.length != vbs.take bs.length
+
+/-- the loop of `update(payload)` over `payload.items()` (string keys): a nested tensordict that meets a nested
+tensordict is handed to that tensordict's own `update` (which starts with the loose batch-size test); everything else
+goes through `_set_tuple(validated=False)`; the first entry that raises stops the update (earlier entries stay written) -/
+def updateTdK : Kids → M → M × Out
+  | [], t => (t, .ok)
+  | _ :: _, .leaf s d => (.leaf s d, .err .attr)
+  | (k, .leaf s d) :: rest, .node bs dv ns kids =>
+    match setPath false [k] (.leaf s d) (.node bs dv ns kids) with
+    | (t', .err e) => (t', .err e)
+    | (t', .ok) => updateTdK rest t'
+  | (k, .node vbs vdv vns vsub) :: rest, .node bs dv ns kids =>
+    match kget k kids with
+    | some (.node cbs cdv cns csub) =>
+      if looseMismatch cbs vbs then (.node bs dv ns kids, .err .runtime)
+      else
+        match updateTdK vsub (.node cbs cdv cns csub) with
+        | (c, .err e) => (.node bs dv ns (kset k c kids), .err e)
+        | (c, .ok) => updateTdK rest (.node bs dv ns (kset k c kids))
+    | _ =>
+      match setPath false [k] (.node vbs vdv vns vsub) (.node bs dv ns kids) with
+      | (t', .err e) => (t', .err e)
+      | (t', .ok) => updateTdK rest t'
+
+/-- `td.update(payload)` with a tensordict payload -/
+def updateTdM (payload : M) (t : M) : M × Out :=
+  match t, payload with
+  | .leaf s d, _ => (.leaf s d, .err .attr)
+  | .node bs dv ns kids, .node vbs _ _ vsub =>
+    if looseMismatch bs vbs then (.node bs dv ns kids, .err .runtime) else updateTdK vsub (.node bs dv ns kids)
+  | .node bs dv ns kids, .leaf .. => (.node bs dv ns kids, .err .type)
+
 /-! ### auto_batch_size_ (tensordict/utils.py:_set_max_batch_size) -/
 
 /-- `batch_dims is None or len(batch_size) < batch_dims` -/
@@ -567,13 +617,71 @@ def autoKids (bd : Option Nat) : Kids → Kids × Out
         let (r', o) := autoKids bd r
         ((k, c') :: r', o)
 
-/-- `td.auto_batch_size_(batch_dims)` -/
+/-- `td.auto_batch_size_(batch_dims)` (after the `fix:` commit: nothing changes when the call raises) -/
 def autoBatchM (bd : Option Nat) : M → M × Out
   | .leaf s d => (.leaf s d, .err .attr)
   | .node bs dv names kids =>
-    match autoKids bd kids with
-    | (kids', .err e) => (.node bs dv names kids', .err e)
-    | (kids', .ok) => autoFinish bd (.node bs dv names kids')
+    -- `_set_max_batch_size` runs inside try/except: when it raises, every batch size and name is put back
+    restoreOnErr (.node bs dv names kids)
+      (match autoKids bd kids with
+        | (kids', .err e) => (.node bs dv names kids', .err e)
+        | (kids', .ok) => autoFinish bd (.node bs dv names kids'))
+
+/-! ### restructuring in place: exclude / flatten_keys / unflatten_keys (inplace=True)
+
+Their effect on the mapping is the subject of C04 (`exclude_refines`, `flatten_inplace_eq_outplace`, `unflatten_refines`
+in Props/C04.lean); here the same calls are followed on the metadata. -/
+
+/-- `del d[p]` when present, through nested tensordicts only (tensordict/_td.py:_exclude: a string key is popped with a
+default, nested keys are grouped by their first component and handed to the nested tensordict when there is one) -/
+def removeIfPresent : Path → Kids → Kids
+  | [], kids => kids
+  | [k], kids => kdel k kids
+  | k :: k2 :: rest, kids =>
+    match kget k kids with
+    | some (.node cbs cdv cns sub) => kset k (.node cbs cdv cns (removeIfPresent (k2 :: rest) sub)) kids
+    | _ => kids
+
+/-- `td.exclude(*keys, inplace=True)` (keys non-empty): every listed entry is removed when present -/
+def excludeM (keys : List Path) : M → M × Out
+  | .leaf s d => (.leaf s d, .err .attr)
+  | .node bs dv ns kids => (.node bs dv ns (keys.foldl (fun ks p => removeIfPresent p ks) kids), .ok)
+
+/-- `keys(include_nested=True, leaves_only=True)` with the values, in iteration order -/
+def leavesM : Kids → Path → List (Path × M)
+  | [], _ => []
+  | (k, .leaf s d) :: r, pre => (pre ++ [k], .leaf s d) :: leavesM r pre
+  | (k, .node _ _ _ sub) :: r, pre => leavesM sub (pre ++ [k]) ++ leavesM r pre
+
+/-- `td.flatten_keys(sep, inplace=True)` (tensordict/base.py:_flatten_keys_inplace after the `fix:` commit): a clash
+of flat names raises KeyError before anything is touched; otherwise every leaf is popped, what is left is excluded, and the
+leaves are written at the root under their joined names with `_set_str(..., validated=True)` — no shape or device check. -/
+def flattenM (sep : String) : M → M × Out
+  | .leaf s d => (.leaf s d, .err .attr)
+  | .node bs dv ns kids =>
+    let lv := leavesM kids []
+    let flat := lv.map fun kv => C04.joinWith sep kv.1
+    if (C04.dedup flat).length < (C04.dedup (lv.map (·.1))).length then (.node bs dv ns kids, .err .key)
+    else (.node bs dv ns ((flat.zip (lv.map (·.2))).foldl (fun d kv => kset kv.1 kv.2 d) []), .ok)
+
+/-- `rename_key_(old, new, safe=True)` for `old ≠ new`: refused (KeyError) when `new in td.keys(include_nested=True)` -/
+def renameSafe (old new : Path) (t : M) : M × Out :=
+  if (getPath new t).isSome then (t, .err .key) else renamePath old new t
+
+/-- `td.unflatten_keys(sep, inplace=True)`: every root key containing the separator is renamed to its split form with
+`safe=True`; a KeyError is re-raised as KeyError, anything else propagates; earlier renames persist -/
+def unflattenLoopM (sep : Char) : List String → M → M × Out
+  | [], t => (t, .ok)
+  | k :: ks, t =>
+    if k.toList.contains sep then
+      match renameSafe [k] (C04.splitKey sep k) t with
+      | (t', .err e) => (t', .err e)
+      | (t', .ok) => unflattenLoopM sep ks t'
+    else unflattenLoopM sep ks t
+
+def unflattenM (sep : Char) : M → M × Out
+  | .leaf s d => (.leaf s d, .err .attr)
+  | .node bs dv ns kids => unflattenLoopM sep (kids.map (·.1)) (.node bs dv ns kids)
 
 /-- apply `f` to the node addressed by `handle` (a nested handle `td[handle]`), rebuilding the path -/
 def atPath (f : M → M × Out) : Path → M → M × Out
@@ -599,7 +707,11 @@ inductive Op where
   | setdefault (handle key : Path) (v : M)
   | refineNames (handle : Path) (names : DimNames)
   | update (handle : Path) (items : List (Path × PV))
+  | updateTd (handle : Path) (payload : M)
   | autoBatch (handle : Path) (batchDims : Option Nat)
+  | excludeIn (handle : Path) (keys : List Path)
+  | flattenIn (handle : Path) (sep : String)
+  | unflattenIn (handle : Path) (sep : Char)
   deriving Repr, Inhabited
 
 def clearM : M → M × Out
@@ -619,7 +731,11 @@ def step (t : M) : Op → M × Out
   | .setdefault h key v => atPath (setDefaultPath key v) h t
   | .refineNames h ns => atPath (refineNamesM ns) h t
   | .update h items => atPath (updateC (updMeasureC items) items) h t
+  | .updateTd h m => atPath (updateTdM m) h t
   | .autoBatch h bd => atPath (autoBatchM bd) h t
+  | .excludeIn h keys => atPath (excludeM keys) h t
+  | .flattenIn h sep => atPath (flattenM sep) h t
+  | .unflattenIn h sep => atPath (unflattenM sep) h t
 
 def run (t : M) : List Op → M
   | [] => t
